@@ -137,6 +137,6 @@ LEVEL_TEXT = ("Machine-checked Coq theorems for ALL chain problems (any desired 
 LEVEL_NOTE = ("Trusted: Coq kernel; extraction re-checked by vm_compute; the harness. Modelled, not verified: "
               "removeOverlap.py / vpsc.py (exact rationals for doubles; the solver's 1e-10 / 1e-4 tolerances make it exact "
               "only up to ~1e-10, disagreements inside the 1e-7 rounding band are counted). The targets of deeper layers "
-              "(C02_targets) belong to the engine package; the distance to the HARD-bounded optimum is bounded by delta "
-              "(C03), not proved as a separate lemma (C02_distance_to_hard_optimum_partial is not stated).")
+              "(C02_targets) are proved in Props/C06.v; the distance to the HARD-bounded optimum is proved (C02_hard_optimum, "
+              "C02_distance_to_hard_optimum: per item at most delta, under the property's own hypothesis that the layer fits).")
 TECHNIQUE = "Coq proof (prefix-mean invariant of PAVA, KKT certificate, summation by parts) + model/implementation correspondence"
